@@ -397,7 +397,7 @@ def col_entry_rules(ctx, b):
     if not loops: return
     probs = []; n = 0
     for same in (True, False):
-        for coeff in (2.5, -1e-9, 0.0):
+        for coeff in (2.5, -1e-9, 1e-300, 0.0):
             orc = ColEntryCase(same, coeff)
             ps = sx_loop_paths(ctx, 'C18.columns/entry/condition', 'T-BRANCHFX', b, orc, loops[0])
             if ps is None: return
@@ -451,7 +451,7 @@ def rhs_rules(ctx, W):
     ctx.check(len(loops) >= 1 and not restr, R + '/loop', 'T-LOOPMUST', b.name, 'no loop over all constraints (restricted by %s)' % restr, b.site())
     header = loops[0][1] if loops else None
     res = {}
-    for what, cs in (('negated', (3.5, -2.0)), ('only-zero-omitted', (1e-9,))):
+    for what, cs in (('negated', (3.5, -2.0)), ('only-zero-omitted', (1e-9, 1e-300, -3e-17))):          # only an EXACT zero may be left out: numbers below any epsilon are sampled too (seed C18-19)
         probs = []; n = 0
         for c in cs:
             # objective
